@@ -73,7 +73,7 @@ Proof. exact zip_law. Qed.
 Print Assumptions C28_zip.
 
 Theorem C28_length_separator_bracketed : forall l,
-  (l <> VNull -> f_length l = ROk (sp_length l)) /\
+  f_length l = ROk (sp_length l) /\
   (match l with VList _ (Some SSlashNoSpace) _ => False | _ => True end -> f_separator l = ROk (sp_separator l)) /\
   f_is_bracketed l = ROk (sp_is_bracketed l).
 Proof. intros. split; [apply length_refines|]. split; [apply separator_refines|apply bracketed_refines]. Qed.
@@ -102,16 +102,11 @@ Proof.
 Qed.
 Print Assumptions C28_refines.
 
-(* the full statement "every list function treats every value as the reference list" is false twice *)
+(* the full statement "every list function treats every value as the reference list" is false for index *)
 Definition C28_statement_index : Prop := forall l x, f_index l x = ROk (sp_index l x).
 Theorem C28_refuted_index_arglist : ~ C28_statement_index.
 Proof. intros H. destruct refuted_index_arglist as [A B]. rewrite H, B in A. discriminate. Qed.
 Print Assumptions C28_refuted_index_arglist.
-
-Definition C28_statement_length : Prop := forall l, f_length l = ROk (sp_length l).
-Theorem C28_refuted_length_null : ~ C28_statement_length.
-Proof. intros H. destruct refuted_length_null as [A B]. rewrite H, B in A. discriminate. Qed.
-Print Assumptions C28_refuted_length_null.
 
 Example C28_hyps_sat : exists r, f_set_nth (VList [v_int 1; v_int 2] (Some SComma) true) (-1) VNull = ROk r.
 Proof. eexists. reflexivity. Qed.
